@@ -44,10 +44,16 @@ func ModelAdd(pre *sandbox.Snap, args []string) *AddModel {
 	wt := pre.WT()
 	ir := ParseIgnore(wt)
 	for _, a := range args {
-		c, okc := CleanArg(a)
+		c, okc := CleanArgAt(pre, a)
 		if !okc {
 			m.DomainOK = false
 			m.ArgClasses = append(m.ArgClasses, "escapes-root")
+			continue
+		}
+		if strings.HasPrefix(a, "/") && !ExistsOnDisk(pre, c) {
+			// an absolute spelling of something that is not on disk: outside the domain
+			m.DomainOK = false
+			m.ArgClasses = append(m.ArgClasses, "absolute-missing")
 			continue
 		}
 		if InGoit(c) {
@@ -321,7 +327,7 @@ func checkRm(w *core.World, st *core.Step) {
 	var classes []string
 	domainOK, dotOpen, typeConflict := true, false, false
 	for _, a := range pa.Pos {
-		cp, okc := CleanArg(a)
+		cp, okc := CleanArg(a) // absolute spellings are only part of add's domain
 		if !okc || InGoit(cp) {
 			domainOK = false
 			continue
@@ -472,9 +478,9 @@ func runC04(c *core.Ctx) {
 
 func init() {
 	register(&Prop{ID: "C04", Level: "exploration",
-		Rule: "seeded random histories producing prior index states and working-tree shapes (untracked files inside tracked dirs, deleted tracked files/dirs); add/rm argument lists mixing files, directories, deleted-but-tracked paths, unknown paths, repeated arguments and ./x, x/, zz/../x spellings; after every add/rm the post-state is compared with the set the statement implies (exact staged set, blobs stored with the file's bytes, no working file touched, idempotent re-add; rm: exact removal, no collateral, refusal without change); distinct = (command, argument-kind multiset) classes",
-		Mons:  func() []core.Monitor { return []core.Monitor{C04Mon{}} },
-		Run:   runC04,
+		Rule:   "seeded random histories producing prior index states and working-tree shapes (untracked files inside tracked dirs, deleted tracked files/dirs); add/rm argument lists mixing files, directories, deleted-but-tracked paths, unknown paths, repeated arguments and ./x, x/, zz/../x spellings; after every add/rm the post-state is compared with the set the statement implies (exact staged set, blobs stored with the file's bytes, no working file touched, idempotent re-add; rm: exact removal, no collateral, refusal without change); distinct = (command, argument-kind multiset) classes",
+		Mons:   func() []core.Monitor { return []core.Monitor{C04Mon{}} },
+		Run:    runC04,
 		Floors: []core.Floor{{Key: "C04.add.index", Min: 500}, {Key: "C04.rm.collateral", Min: 300}},
 	})
 }
